@@ -477,15 +477,11 @@ func Guards(instr ssa.Instruction) []Guard {
 }
 
 func BlockGuards(b *ssa.BasicBlock) []Guard {
+	return blockGuards(b, 0)
+}
+
+func blockGuards(b *ssa.BasicBlock, depth int) []Guard {
 	var out []Guard
-	for d := b; d != nil; d = d.Idom() {
-		id := d.Idom()
-		if id == nil {
-			break
-		}
-		// find the If-terminated dominators between: check every dominator a of b
-		_ = id
-	}
 	for a := b.Idom(); a != nil; a = a.Idom() {
 		ifi, ok := a.Instrs[len(a.Instrs)-1].(*ssa.If)
 		if !ok || len(a.Succs) != 2 || a.Succs[0] == a.Succs[1] {
@@ -502,6 +498,58 @@ func BlockGuards(b *ssa.BasicBlock) []Guard {
 			truth = !truth
 		}
 		out = append(out, Guard{Cond: c, Truth: truth, If: ifi})
+		out = append(out, threadPhi(c, truth, ifi, depth)...)
+	}
+	return out
+}
+
+// threadPhi: a guard on a boolean phi (typically the result of a predicate whose body sits inline: "ok = false" in one
+// arm, "ok = test(..)" in another) tells which arm was taken when all other arms carry the opposite constant. The
+// outcome of that arm's value and the guards of that arm then hold as well.
+func threadPhi(c ssa.Value, truth bool, ifi *ssa.If, depth int) []Guard {
+	phi, ok := c.(*ssa.Phi)
+	if !ok || depth > 4 {
+		return nil
+	}
+	if bt, ok := phi.Type().Underlying().(*types.Basic); !ok || bt.Kind() != types.Bool {
+		return nil
+	}
+	live := -1
+	for i, e := range phi.Edges {
+		if cst, ok := e.(*ssa.Const); ok && cst.Value != nil && cst.Value.Kind() == constant.Bool {
+			if constant.BoolVal(cst.Value) != truth {
+				continue // this arm cannot have been taken
+			}
+		}
+		if live >= 0 {
+			return nil // more than one possible arm
+		}
+		live = i
+	}
+	if live < 0 {
+		return nil
+	}
+	var out []Guard
+	v, neg := StripNot(phi.Edges[live])
+	if _, isConst := v.(*ssa.Const); !isConst {
+		t := truth
+		if neg {
+			t = !t
+		}
+		out = append(out, Guard{Cond: v, Truth: t, If: ifi})
+		out = append(out, threadPhi(v, t, ifi, depth+1)...)
+	}
+	pred := phi.Block().Preds[live]
+	out = append(out, blockGuards(pred, depth+1)...)
+	// the edge pred -> phi block itself
+	if pi, ok := pred.Instrs[len(pred.Instrs)-1].(*ssa.If); ok && len(pred.Succs) == 2 && pred.Succs[0] != pred.Succs[1] {
+		pc, pneg := StripNot(pi.Cond)
+		pt := pred.Succs[0] == phi.Block()
+		if pneg {
+			pt = !pt
+		}
+		out = append(out, Guard{Cond: pc, Truth: pt, If: pi})
+		out = append(out, threadPhi(pc, pt, pi, depth+1)...)
 	}
 	return out
 }
